@@ -4,7 +4,8 @@ import Lm.Core.Prog
 
 Transcribed statement by statement from the C sources *as they are after the `fix:` commits*.
 Each definition names the C function it mirrors.  User callbacks are `callCb` suspension points.
-Not modelled here (see DESIGN.md §6): thresholds, tasks, the FUSE fs, stats timestamps, bound modules,
+Not modelled here (see DESIGN.md §6): threshold events, what a task function does (a task source is a source whose
+event carries the function's result; the harness lets every started task finish before the library goes on), the FUSE fs, stats timestamps, bound modules,
 allocation failures, failing system calls.
 -/
 namespace Lm.Core
@@ -868,6 +869,9 @@ def unpollable (key : Nat) : Bool := key % 100 ≥ 6
 100 + k here), which is closed with the source whatever the user asked for -/
 def dupSrc (x : Src) : Src := if x.dup && x.kind == .fd then { x with key := 100 + x.key, autoclose := true } else x
 
+/-- `create_src`: task and threshold sources are one-shot whatever flags were given (`src->flags |= M_SRC_ONESHOT`) -/
+def forceOneshot (x : Src) : Src := if x.kind == .task || x.kind == .thresh then { x with oneshot := true } else x
+
 /-- `add_mod_src` (no token) -/
 def addSrc (s : St) (m : ModId) (x : Src) : St × Int :=
   match findSrc s m x.kind x.key x.role with
@@ -1048,7 +1052,7 @@ def apiRegSrc (m : ModId) (paramOk : Bool) (x : Src) (prioBits : Nat) : Prog Int
     if prioBits > 1 then pure EINVAL
     else do
       let s ← getSt
-      let (s', r) := addSrc s m (dupSrc x)
+      let (s', r) := addSrc s m (forceOneshot (dupSrc x))
       setSt s'; pure r
 
 def apiDeregSrc (m : ModId) (paramOk : Bool) (kind : SrcKind) (key : Nat) : Prog Int := do
